@@ -284,7 +284,18 @@ def main():
     a = ap.parse_args()
     t0 = time.time()
     import rt
-    import pool
+    try:
+        import pool
+    except BaseException as e:   # noqa
+        # the witness pool defines ordinary dataclasses / types that are valid on the unchanged tree: if the library refuses one of
+        # them at class-creation time, that is a failing run of the class-processing code (reported on the bounded contract of _process)
+        tb = traceback.format_exc()
+        in_repo = '/pane/' in tb and 'native/pool.py' in tb
+        v = {'func': 'pane.classes:_process.bounded', 'clause': 'exc', 'what': f'defining a witness-pool class raised {type(e).__name__}: {e}'[:300],
+             'witness': 'class statement in the witness pool: ' + tb.strip().splitlines()[-3].strip()[:200] if in_repo else tb[-300:]}
+        print('NATIVE-RESULT ' + json.dumps({'status': 'violated' if in_repo else 'pool-error', 'calls': 1, 'checked': 1, 'skipped_by_requires': 0,
+                                              'violations': [v], 'witness': v, 'per_function': {}, 'wall_s': round(time.time() - t0, 2), 'pool_failed': True}))
+        return
     ns = rt.namespace()
     ns.update({'T_': pool.T_, 'U_': pool.U_})          # the type variables of the pool's generic class hierarchies
     contracts = load_contracts(ns)
